@@ -130,12 +130,22 @@ def _is_lib(fn):
     return "/rtflite/" in fn and "/verif/" not in fn
 
 
+_GEN_FLAGS = 0x20 | 0x80 | 0x200      # CO_GENERATOR | CO_COROUTINE | CO_ASYNC_GENERATOR
+
+
+def is_lib_call(frame):
+    """A function-call boundary inside the library.  Resumptions of generator frames (<genexpr> ...) are not counted:
+    they are not calls, and an exception raised while the interpreter finalises a generator is discarded by Python
+    ("Exception ignored in: <generator ...>"), so it would not be a fault the library ever sees."""
+    return _is_lib(frame.f_code.co_filename) and not (frame.f_code.co_flags & _GEN_FLAGS)
+
+
 def count_calls(writer):
     """Number of library function calls of one successful export (dry run with the ok stub)."""
     n = {"n": 0}
 
     def tracer(frame, event, arg):
-        if event == "call" and _is_lib(frame.f_code.co_filename):
+        if event == "call" and is_lib_call(frame):
             n["n"] += 1
         return None
     root = tempfile.mkdtemp(prefix="rtflite-verif-exp-")
@@ -219,7 +229,7 @@ def run_one(sc):
         exc_cls = InjectedBase if s["flavour"] == "base" else InjectedExc
 
         def tracer(frame, event, arg):
-            if event == "call" and _is_lib(frame.f_code.co_filename):
+            if event == "call" and is_lib_call(frame):
                 fired["n"] += 1
                 if k and fired["n"] == k and not fired["v"]:
                     fired["v"] = True
